@@ -3,7 +3,7 @@ from common import COMMON_TB
 PROP = {
     "bin": "c06",
     "prop_file": "Properties/C06.v",
-    "model_files": ["Rank/TopN.v", "Rank/Paging.v", "Rank/Wand.v", "Rank/WandUnionBase.v", "Rank/WandUnionProofs.v"],
+    "model_files": ["Rank/TopN.v", "Rank/Paging.v", "Rank/Wand.v", "Rank/WandUnionBase.v", "Rank/WandUnionProofs.v", "Rank/WandNoFreq.v"],
     "level": "proof",
     "engine": "E4-ranking",
     "level_text": "Proof (partial where stated): TopNComputer (buffer of capacity 2*max(K,1), strict threshold test, truncation by select_nth_unstable_by, "
@@ -23,6 +23,8 @@ PROP = {
                   "is needed). PARTIAL: block_wand_intersection is NOT modelled; it is covered end-to-end only (including every 4..6-term conjunction over large skewed corpora, "
                   "which exercises its suffix-sum pruning bound with >= 3 secondary terms). Metadata that is not an upper bound (F3: C06_blockmax_bound_refuted, "
                   "F6: C06_max_score_bound_refuted, exact rationals over the regenerated BM25 constants) is classified, witnessed and reproduced on the implementation. "
+                  "Posting lists without term frequencies (block max 0 on full blocks) are modelled (Rank/WandNoFreq.v): they violate the bounds contract for every list "
+                  "(C06_nofreq_not_upper_bounds) and the single-scorer routine then misses the best document (C06_nofreq_blockmax_refuted) -- finding F61, reproduced on the implementation. "
                   "Multi-clause float sums are compared with the documented tolerance (partial).",
     "level_note": "Trusted: Coq kernel + vm_compute; pin.py; harness; std select_nth_unstable_by / sort_unstable_by and BinaryHeap only through their contracts "
                   "(Section hypotheses; TopNHeap of the score path is covered end-to-end, not modelled); posting-list codec and skip reader abstracted as lists of "
@@ -37,6 +39,9 @@ PROP = {
             "fruits handed over in heap order), every K <= 8, offsets 0..2 and paging sweeps, exact comparison -- a wrong tie-break outside the F15 class is a violation with its input; "
             "(b4) single-segment corpora whose 7 terms live in their own doc-id ranges (posting lists ending at different places, frequent low-impact and rare high-impact terms), every "
             "union of 3-5 Should term clauses, K in {1,2,3,5}, under a 20 s watchdog (non-termination is an observation); "
+            "(b5) single-segment corpora with a TEXT field and a multi-valued STRING field (no frequencies; field norm drifting with the doc id; tags with more and fewer than 128 postings): "
+            "single STRING terms, STRING-only unions and unions mixing TEXT and STRING terms, K in {1,2,3,5}; every TopDocs with an offset is also run inside (Count, TopDocs) and a MultiCollector "
+            "(generic for_segment/harvest route) in (b3) and for u64/i64 fast-field pages in (b); "
             "distinct by hash of the Gallina term",
     "trusted_base": COMMON_TB + ["std::slice::select_nth_unstable_by / sort_unstable_by: contracts as Section hypotheses (two concrete instances proved to meet them)",
                                  "f32 addition is not modelled: exact scores in theorems, tolerance 1e-5 relative for multi-clause sums in the end-to-end comparison"],
